@@ -266,6 +266,8 @@ func (ctx *Context) fixStackMerge(pos []int) {
 		}
 
 		action.InputPos = in
-		action.EndPos -= delta
+		// All merged glyphs lie before EndPos, also those which follow the
+		// last position of the input sequence.
+		action.EndPos -= len(pos) - 1
 	}
 }
